@@ -68,6 +68,18 @@ def gen_partial():
         if len(kinds) != 1:
             raise Untranslatable(f"{cls}.{meth}: expected one counter call")
         out.append(f"def ackUsesCommandCounter{tag} : Bool := {'true' if kinds[0] else 'false'}")
+        # `remainder` is what follows the 5-byte verb: every assignment to it in the method is `received_bytes[N:]` with the same constant N
+        rems = [n for n in ast.walk(fn) if isinstance(n, ast.Assign) and ast.unparse(n.targets[0]) == "remainder"]
+        skips = set()
+        for r_ in rems:
+            v = r_.value
+            if not (isinstance(v, ast.Subscript) and ast.unparse(v.value) == "received_bytes" and isinstance(v.slice, ast.Slice)
+                    and v.slice.upper is None and v.slice.step is None and isinstance(v.slice.lower, ast.Constant) and isinstance(v.slice.lower.value, int)):
+                raise Untranslatable(f"{cls}.{meth}: `remainder` is not `received_bytes[<constant>:]` ({ast.unparse(v)})")
+            skips.add(v.slice.lower.value)
+        if len(skips) != 1:
+            raise Untranslatable(f"{cls}.{meth}: expected one constant verb length, found {sorted(skips)}")
+        out.append(f"/-- `remainder = received_bytes[verbSkip:]` -/\ndef verbSkip{tag} : Nat := {skips.pop()}")
         # change_count is the first byte
         cnt = [n for n in ast.walk(fn) if isinstance(n, ast.Assign) and ast.unparse(n.targets[0]) == "change_count"][0]
         out.append(f"def countIsFirstByte{tag} : Bool := {'true' if 'remainder[0:1]' in ast.unparse(cnt.value) and chr(62)+'B' in ast.unparse(cnt.value) else 'false'}\n")
